@@ -306,6 +306,14 @@ class CallMixin(object):
                 if f.attr == "update" and not kwargs and len(args) == 1 and \
                         args[0][0] == head[0]:
                     lit = args[0][1]
+                elif f.attr == "update" and not kwargs and len(args) == 1 and \
+                        head[0] == "kwdict" and args[0][0] == "dictlit" and all(
+                            is_const(k) and isinstance(k[1], str) for k, _ in args[0][1]):
+                    # dict(a=1).update({"b": 2}): string keys on both sides
+                    lit = tuple((k[1], v) for k, v in args[0][1])
+                elif f.attr == "update" and not kwargs and len(args) == 1 and \
+                        head[0] == "dictlit" and args[0][0] == "kwdict":
+                    lit = tuple((("const", k), v) for k, v in args[0][1])
                 elif f.attr == "update" and not args and kwargs and "**" not in kwargs:
                     lit = tuple((k if head[0] == "kwdict" else ("const", k), v)
                                 for k, v in sorted(kwargs.items()))
